@@ -36,6 +36,9 @@ func (rw *Rewriter) junkExpr(c Ctx, d int) *Node {
 // junkJump returns a jump statement that is syntactically valid in context c, or nil.
 func (rw *Rewriter) junkJump(c Ctx) *Node {
 	var opts []*Node
+	if AvoidFinallyJumps && c.Finally > 0 && !valueFree(c) {
+		return Throw(rw.junkExpr(c, 1))
+	}
 	if c.Breakers > 0 {
 		opts = append(opts, &Node{K: KBreak})
 	}
@@ -322,11 +325,17 @@ func (rw *Rewriter) r8(p *Node) string {
 		var w *Node
 		form := rw.R.Intn(4)
 		switch form {
-		case 0:
+		case 0, 1:
+			if AvoidFinallyJumps && !valueFree(s.c) && escapes(region) {
+				// listed known finding C02-finally-nested-jump-completion (second shape): goja loses the completion value
+				// when a break/continue leaves a plain or labelled block that is followed by further statements
+				continue
+			}
 			// Block: StatementList completion passes through unchanged; no lexical declaration at the top of the region
 			w = Block(region...)
-		case 1:
-			w = Label(rw.name("L"), Block(region...)) // fresh label: never a break target
+			if form == 1 {
+				w = Label(rw.name("L"), w) // fresh label: never a break target
+			}
 		default:
 			// IIFE: the region must not declare var-scoped names (they would become local to the new function), must not
 			// contain a direct eval (whose var declarations would), must not return / break / continue out of itself;
@@ -432,8 +441,11 @@ func (rw *Rewriter) r9(p *Node) string {
 			if n.K != KFunc || n.Has(FSynthetic) {
 				return false
 			}
-			if AvoidArrowParenBody && n.Has(FExprBody) && len(n.M) == 1 && n.M[0].A != nil && (n.M[0].A.K == KObj || n.M[0].A.K == KSeq) {
+			if AvoidArrowParenBody && n.Has(FExprBody) {
 				return false // known finding: toString() of `() => (e)` loses the closing parenthesis
+			}
+			if AvoidEvalInParams && c.InParams {
+				return false // known finding C02-forward-ref-param-defaults: a direct eval among the parameter defaults
 			}
 			if n.Has(FArrow) && usesThisLike(&Node{K: KBlock, L: append(append([]*Node(nil), n.L...), n.M...)}) {
 				return false
@@ -658,6 +670,9 @@ func (rw *Rewriter) r11(p *Node) string {
 				if t.A != nil && t.A.K == KVar && t.A.S != "var" {
 					continue // per-iteration bindings
 				}
+				if AvoidCatchCompletion && s.c.Try > 0 && !valueFree(s.c) {
+					continue
+				}
 				if continuesLoop(t.D, labels) {
 					continue // continue would skip the update moved into the body
 				}
@@ -720,10 +735,24 @@ func (rw *Rewriter) r11(p *Node) string {
 // ---- R12: (a) <-> ([a]) with the argument wrapped in an array literal
 
 // AvoidVarOverPatternParam keeps R12 out of the neighbourhood of the listed known finding C02-var-over-pattern-param.
-var AvoidVarOverPatternParam = true
+var AvoidVarOverPatternParam = false // fixed in /repo: exclusion off
+
+// AvoidEvalInParams keeps R9 out of parameter lists (listed known finding C02-forward-ref-param-defaults).
+var AvoidEvalInParams = false // fixed in /repo: exclusion off
+
+// AvoidCatchCompletion keeps R11 (whose `var $t = update` has no value of its own but can throw) out of try blocks at
+// script / eval level (listed known finding C02-catch-completion-value).
+var AvoidCatchCompletion = false // fixed in /repo: exclusion off
+
+// AvoidFinallyJumps keeps dead break/continue statements out of finally blocks at script / eval level (listed known
+// finding C02-finally-nested-jump-completion).
+var AvoidFinallyJumps = true
+
+// AvoidStrictEvalArguments keeps R5 out of strict eval code (listed known finding C02-strict-eval-arguments).
+var AvoidStrictEvalArguments = false // fixed in /repo: exclusion off
 
 // AvoidArrowParenBody keeps R9 out of the neighbourhood of the listed known finding C02-arrow-tostring-paren.
-var AvoidArrowParenBody = true
+var AvoidArrowParenBody = false // fixed in /repo: exclusion off
 
 func (rw *Rewriter) r12(p *Node) string {
 	type site struct {
